@@ -3028,6 +3028,11 @@ void QXmppJingleMessageInitiationElement::parse(const QDomElement &element)
 
 void QXmppJingleMessageInitiationElement::toXml(QXmlStreamWriter *writer) const
 {
+    // an element without type has no tag name: writing it would produce '< xmlns=.../>'
+    if (d->type == Type::None) {
+        return;
+    }
+
     writer->writeStartElement(jmiElementTypeToString(d->type));
     writer->writeDefaultNamespace(toString65(ns_jingle_message_initiation));
 
@@ -3285,6 +3290,11 @@ void QXmppCallInviteElement::parse(const QDomElement &element)
 
 void QXmppCallInviteElement::toXml(QXmlStreamWriter *writer) const
 {
+    // an element without type has no tag name: writing it would produce '< xmlns=.../>'
+    if (d->type == Type::None) {
+        return;
+    }
+
     // write starting tag.
     writer->writeStartElement(callInviteElementTypeToString(d->type));
 
